@@ -592,6 +592,757 @@ def incompat_ctors(repo, out):
     open(os.path.join(out, "IncompatCtors.v"), "w").write(text)
 
 
+# ------------------------------------------------------------------------------ incompatibility.rs methods
+# no_versions, is_terminal, merge_dependents, prior_cause: the bodies are parsed statement by statement (RParser)
+# and translated by a small type-directed emitter (MethEmit) into the panic monad of Model/Solver.v.
+# Nothing here compares the function text with a stored copy: the Gallina is derived from the parse tree through
+# the fixed tables of MethEmit (method / function / constructor names of the source -> functions of the model).
+class RParser(P):
+    """statements and expressions of the function bodies: `let [mut] pat = e;`, `return e;`, `if c { … } [else …]`,
+    expression statements, macros `name!(…)`, `?`, `e[i]`, closures `|pats| e`, `!=`, array and `Self { … }` literals"""
+
+    def expr(self):
+        l = self.cmp()
+        while self.peek() == "&&":
+            self.eat()
+            l = ("and", l, self.cmp())
+        if self.peek() == "||":
+            raise ParseError("operator || is not supported")
+        return l
+
+    def cmp(self):
+        l = self.unary()
+        op = None
+        if self.peek() in ("<=", "<", ">", ">=", "=="):
+            op = self.eat()
+        elif self.peek() == "!" and self.peek(1) == "=":
+            self.eat(); self.eat()
+            op = "!="
+        if op is not None:
+            l = ("cmp", op, l, self.unary())
+        return l
+
+    def unary(self):
+        if self.peek() == "&":
+            self.eat()
+            if self.peek() == "mut":
+                self.eat()
+            return self.unary()
+        if self.peek() == "!":
+            self.eat()
+            return ("not", self.unary())
+        return self.postfix()
+
+    def args(self, close):
+        out = []
+        while self.peek() != close:
+            out.append(self.expr())
+            if self.peek() == ",":
+                self.eat()
+            elif self.peek() != close:
+                raise ParseError("expected , or %s, got %r" % (close, self.peek()))
+        self.eat(close)
+        return out
+
+    def postfix(self):
+        e = self.atom()
+        while True:
+            x = self.peek()
+            if x == ".":
+                self.eat()
+                name = self.eat()
+                if self.peek() == "(":
+                    self.eat()
+                    e = ("method", name, e, self.args(")"))
+                else:
+                    e = ("field", name, e)
+            elif x == "?":
+                self.eat()
+                e = ("try", e)
+            elif x == "[":
+                self.eat()
+                i = self.expr()
+                self.eat("]")
+                e = ("index", e, i)
+            else:
+                return e
+
+    def atom(self):
+        x = self.peek()
+        if x == "(":
+            self.eat()
+            items = self.args(")")
+            return items[0] if len(items) == 1 else ("tuple", items)
+        if x == "[":
+            self.eat()
+            return ("array", self.args("]"))
+        if x == "|":
+            self.eat()
+            pats = []
+            while self.peek() != "|":
+                pats.append(self.pattern1())
+                if self.peek() == ",":
+                    self.eat()
+            self.eat("|")
+            return ("closure", pats, self.expr())
+        if x == "if":
+            return self.if_()
+        if x == "match":
+            return self.match()
+        if x == "{":
+            return self.block()
+        if x in ("true", "false"):
+            self.eat()
+            return ("bool", x)
+        if x is not None and re.match(r"\d+$", x):
+            self.eat()
+            return ("int", x)
+        if x in ("let", "return", "for", "while", "loop", "unsafe", "move", "mut"):
+            raise ParseError("unsupported construct %r in an expression" % x)
+        name = self.path()
+        if self.peek() == "!" and self.peek(1) == "(":
+            self.eat(); self.eat()
+            depth = 1
+            while depth:
+                y = self.eat()
+                depth += (y == "(") - (y == ")")
+            return ("macro", name)
+        if self.peek() == "(":
+            self.eat()
+            return ("call", name, self.args(")"))
+        if name == "Self" and self.peek() == "{":
+            self.eat()
+            fields = []
+            while self.peek() != "}":
+                f = self.eat()
+                if self.peek() == ":":
+                    self.eat()
+                    fields.append((f, self.expr()))
+                else:
+                    fields.append((f, ("path", f)))
+                if self.peek() == ",":
+                    self.eat()
+            self.eat("}")
+            return ("struct", fields)
+        return ("path", name)
+
+    def if_(self):
+        self.eat("if")
+        c = self.expr()
+        a = self.block()
+        b = None
+        if self.peek() == "else":
+            self.eat()
+            b = self.if_() if self.peek() == "if" else self.block()
+        return ("if", c, a, b)
+
+    def letpat(self):
+        x = self.peek()
+        if x == "(":
+            self.eat()
+            items = []
+            while self.peek() != ")":
+                items.append(self.letpat())
+                if self.peek() == ",":
+                    self.eat()
+            self.eat(")")
+            return ("tuple", items)
+        if x == "_":
+            self.eat()
+            return ("wild",)
+        mut = False
+        if x == "mut":
+            self.eat()
+            mut = True
+        n = self.eat()
+        if not re.match(r"[A-Za-z_][A-Za-z0-9_]*$", n):
+            raise ParseError("unsupported let pattern at %r" % n)
+        return ("var", n, mut)
+
+    def block(self):
+        self.eat("{")
+        stmts, tail = [], None
+        while self.peek() != "}":
+            if tail is not None:
+                raise ParseError("expression without ; in the middle of a block")
+            x = self.peek()
+            if x == "let":
+                self.eat()
+                pat = self.letpat()
+                if self.peek() == ":":
+                    raise ParseError("type annotation on let is not supported")
+                self.eat("=")
+                rhs = self.expr()
+                self.eat(";")
+                stmts.append(("let", pat, rhs))
+            elif x == "return":
+                self.eat()
+                e = self.expr()
+                self.eat(";")
+                stmts.append(("return", e))
+            elif x == "if":
+                e = self.if_()
+                if self.peek() == ";":
+                    self.eat()
+                    stmts.append(("if", e))
+                elif self.peek() == "}" and e[3] is not None:
+                    tail = e
+                else:
+                    stmts.append(("if", e))
+            else:
+                e = self.expr()
+                if self.peek() == ";":
+                    self.eat()
+                    stmts.append(("macro", e[1]) if e[0] == "macro" else ("expr", e))
+                else:
+                    tail = e
+        self.eat("}")
+        return ("block", stmts, tail)
+
+    def signature(self, name):
+        """`fn name ( params ) -> Ret` up to (not including) the `{` of the body"""
+        self.eat("fn")
+        self.eat(name)
+        if self.peek() == "<":
+            raise ParseError("generic parameters on %s are not supported" % name)
+        self.eat("(")
+        params = []
+        while self.peek() != ")":
+            if self.peek() == "&" and self.peek(1) == "self":
+                self.eat(); self.eat()
+                params.append(("self", "Self"))
+            else:
+                n = self.eat()
+                self.eat(":")
+                params.append((n, self.rtype((",", ")"))))
+            if self.peek() == ",":
+                self.eat()
+        self.eat(")")
+        self.eat("-"); self.eat(">")
+        ret = self.rtype(("{",))
+        return params, ret
+
+    def rtype(self, stops):
+        depth, out = 0, []
+        while True:
+            x = self.peek()
+            if x is None:
+                raise ParseError("unterminated type")
+            if depth == 0 and x in stops:
+                break
+            if x in ("<", "("):
+                depth += 1
+            elif x in (">", ")"):
+                depth -= 1
+            self.eat()
+            if x not in ("&", "mut"):
+                out.append(x)
+        return "".join(out)
+
+
+RTYPES = {"P": "pkg", "VS": "vs", "VS::V": "ver", "Term<VS>": "term", "Self": "incompat", "Id<Self>": "id",
+          "Arena<Self>": "store", "bool": "bool", "Option<Self>": ("opt", "incompat")}
+# identifiers of the source that would capture a name of the model once bound in Gallina
+RESERVED = {"term", "set", "get", "remove", "kind", "incompat", "terms", "ikind", "bind", "req", "filter", "length",
+            "hd_error", "fst", "snd", "option_map", "pkg", "res", "end", "in", "at", "as", "fun", "O", "VS", "Vr"}
+KINDS = {"NotRoot": ("KNotRoot", ["pkg", "ver"]), "NoVersions": ("KNoVersions", ["pkg", "vs"]),
+         "FromDependencyOf": ("KFromDep", ["pkg", "vs", "pkg", "vs"]), "DerivedFrom": ("KDerived", ["id", "id"])}
+# functions / constructors: rust path -> (gallina head, argument types, result type)
+CALLS = {"Self::from_dependency": ("from_dependency O", ["pkg", "vs", ("pair", "pkg", "vs")], "incompat"),
+         "VS::empty": ("vs_empty O", [], "vs"), "VS::singleton": ("vs_singleton O", ["ver"], "vs"),
+         "Term::any": ("t_any O", [], "term"), "Term::Positive": ("Pos", ["vs"], "term"), "Term::Negative": ("Neg", ["vs"], "term")}
+# pure methods: (receiver type, name) -> (gallina head, argument types, result type); the receiver is the FIRST gallina argument
+PURE = {("term", "union"): ("t_union O", ["term"], "term"), ("term", "intersection"): ("t_intersection O", ["term"], "term"),
+        ("term", "contains"): ("t_contains O", ["ver"], "bool"),
+        ("vs", "union"): ("vs_union O", ["vs"], "vs"), ("vs", "intersection"): ("vs_intersection O", ["vs"], "vs"),
+        ("vs", "complement"): ("vs_complement O", [], "vs"),
+        ("incompat", "as_dependency"): ("as_dependency", [], ("opt", ("pair", "pkg", "pkg")))}
+# panicking conversions: (receiver type, name) -> (gallina function into res, result type, rank in the canonical order)
+PANICKING = {("term", "unwrap_positive"): ("unwrap_positive", "vs", 1), ("term", "unwrap_negative"): ("unwrap_negative", "vs", 1)}
+# panic site of `.unwrap()` by the method that produced the option
+UNWRAP_SITE = {"split_one": "PSplitOne"}
+MAP = ("list", ("pair", "pkg", "term"))
+MERGE_CLOSURE = "(Some (t_intersection O a_ b_))"     # the function hard-wired in Model.Solver.merge_terms
+
+
+def gtype(t):
+    if isinstance(t, tuple):
+        if t[0] == "opt":
+            return "option (%s)" % gtype(t[1])
+        if t[0] == "pair":
+            return "%s * %s" % (gtype(t[1]), gtype(t[2]))
+        if t[0] == "list":
+            return "list (%s)" % gtype(t[1])
+    return {"pkg": "pkg", "vs": "VS", "ver": "Vr", "term": "term VS", "incompat": "@incompat VS Vr", "id": "nat", "nat": "nat",
+            "bool": "bool"}[t]
+
+
+def unify(a, b, what):
+    """types equal up to the unknown payload (None) of a literal `None`"""
+    if a is None or b is None:
+        return b if a is None else a
+    if isinstance(a, tuple) and isinstance(b, tuple) and a[0] == b[0] and len(a) == len(b):
+        return (a[0],) + tuple(unify(x, y, what) for x, y in zip(a[1:], b[1:]))
+    if a != b:
+        raise ParseError("type mismatch in %s: %s vs %s" % (what, a, b))
+    return a
+
+
+class MethEmit:
+    def __init__(self, fname, mode, ret, source_order=False):
+        self.fname, self.mode, self.rty = fname, mode, ret
+        self.source_order = source_order
+        self.pending = []
+        self.nfresh = 0
+        self.seq = 0
+
+    # ---- monad
+    def good(self, t):
+        return ("Good %s" if self.mode == "res" else "Some %s") % t
+
+    def fresh(self):
+        self.nfresh += 1
+        return "x%d" % self.nfresh
+
+    def push(self, kind, rank, text):
+        if self.mode != "res":
+            raise ParseError("%s: a panicking operation / `?` in a function translated without the res monad" % self.fname)
+        v = self.fresh()
+        self.seq += 1
+        self.pending.append({"kind": kind, "rank": rank, "seq": self.seq, "var": v, "text": text})
+        return v
+
+    def collect(self, fn):
+        old, self.pending = self.pending, []
+        try:
+            r = fn()
+            b = self.pending
+        finally:
+            self.pending = old
+        return r, b
+
+    def pure(self, fn, what):
+        r, b = self.collect(fn)
+        if b:
+            raise ParseError("%s: a panicking operation or `?` inside %s is not supported" % (self.fname, what))
+        return r
+
+    def wrap(self, binds, body):
+        """the panicking operations of ONE statement, bound in the canonical order (rank of the operation, then source
+        order); with source_order: exactly the evaluation order of Rust"""
+        if not self.source_order:
+            binds = sorted(binds, key=lambda b: (b["rank"], b["seq"]))
+        seen = set()
+        mine = {b["var"] for b in binds}
+        for b in binds:
+            for v in re.findall(r"\bx\d+\b", b["text"]):
+                if v in mine and v not in seen:
+                    raise ParseError("%s: canonical order of the panicking operations breaks a data dependency" % self.fname)
+            seen.add(b["var"])
+        for b in reversed(binds):
+            if b["kind"] == "bind":
+                if body == self.good(b["var"]):
+                    body = b["text"]            # monad law: bind m Good = m
+                else:
+                    body = "bind (%s) (fun %s => %s)" % (b["text"], b["var"], body)
+            else:
+                body = "match %s with Some %s => %s | None => Good None end" % (b["text"], b["var"], body)
+        return body
+
+    # ---- names
+    def declare(self, env, name, ty, mut=False, g=None):
+        if re.match(r"x\d+$", name):
+            raise ParseError("identifier %s clashes with the fresh names of the translator" % name)
+        e = dict(env)
+        e[name] = {"g": g or (name + "_" if name in RESERVED else name), "ty": ty, "mut": mut}
+        return e
+
+    def bind_pat(self, pat, ty, env):
+        k = pat[0]
+        if k == "wild":
+            return env, "_"
+        if k == "var":
+            mut = pat[2] if len(pat) > 2 else False
+            env = self.declare(env, pat[1], ty, mut)
+            return env, env[pat[1]]["g"]
+        if k == "tuple":
+            if not (isinstance(ty, tuple) and ty[0] == "pair" and len(pat[1]) == 2):
+                raise ParseError("%s: tuple pattern against type %s" % (self.fname, ty))
+            env, a = self.bind_pat(pat[1][0], ty[1], env)
+            env, b = self.bind_pat(pat[1][1], ty[2], env)
+            return env, "'(%s, %s)" % (a, b)
+        raise ParseError("unsupported binding pattern %s" % (pat,))
+
+    # ---- expressions: (gallina text, type); panicking operations are pushed on self.pending
+    def eqb(self, a, b, ty):
+        if ty == "pkg":
+            return "(N.eqb %s %s)" % (a, b)
+        if ty in ("nat", "id"):
+            return "(Nat.eqb %s %s)" % (a, b)
+        if ty == "term":
+            return "(t_eqb O %s %s)" % (a, b)
+        if ty == "vs":
+            return "(vs_eqb O %s %s)" % (a, b)
+        if ty == ("opt", "term"):
+            return "(opt_term_eqb O %s %s)" % (a, b)
+        if isinstance(ty, tuple) and ty[0] == "pair":
+            return "(andb %s %s)" % (self.eqb("(fst %s)" % a, "(fst %s)" % b, ty[1]), self.eqb("(snd %s)" % a, "(snd %s)" % b, ty[2]))
+        raise ParseError("%s: no equality test for type %s" % (self.fname, ty))
+
+    def closure(self, c, tys, env, renames=None):
+        if c[0] != "closure" or len(c[1]) != len(tys):
+            raise ParseError("%s: closure with %d parameter(s) expected" % (self.fname, len(tys)))
+        pats = []
+        for i, (p, ty) in enumerate(zip(c[1], tys)):
+            if renames and p[0] == "var":
+                env = self.declare(env, p[1], ty, g=renames[i])
+                pats.append(renames[i])
+            else:
+                env, t = self.bind_pat(p if p[0] != "var" else ("var", p[1], False), ty, env)
+                pats.append(t)
+        return pats, c[2], env
+
+    def ex(self, e, env):
+        k = e[0]
+        if k == "path":
+            n = e[1]
+            if n in env:
+                return env[n]["g"], env[n]["ty"]
+            if n == "None":
+                return "None", ("opt", None)
+            raise ParseError("%s: unbound name %s" % (self.fname, n))
+        if k == "int":
+            return e[1], "nat"
+        if k == "bool":
+            return e[1], "bool"
+        if k == "tuple":
+            if len(e[1]) != 2:
+                raise ParseError("only pairs are supported")
+            (a, ta), (b, tb) = self.ex(e[1][0], env), self.ex(e[1][1], env)
+            return "(%s, %s)" % (a, b), ("pair", ta, tb)
+        if k == "array":
+            items = [self.ex(x, env) for x in e[1]]
+            ty = None
+            for _, t in items:
+                ty = unify(ty, t, "array literal")
+            return "[" + "; ".join(t for t, _ in items) + "]", ("list", ty)
+        if k == "and":
+            a, ta = self.ex(e[1], env)
+            b, tb = self.pure(lambda: self.ex(e[2], env), "the right operand of &&")
+            unify(ta, "bool", "&&"); unify(tb, "bool", "&&")
+            return "(andb %s %s)" % (a, b), "bool"
+        if k == "not":
+            a, ta = self.ex(e[1], env)
+            unify(ta, "bool", "!")
+            return "(negb %s)" % a, "bool"
+        if k == "cmp":
+            op = e[1]
+            (a, ta), (b, tb) = self.ex(e[2], env), self.ex(e[3], env)
+            ty = unify(ta, tb, "comparison " + op)
+            if op == "==":
+                return self.eqb(a, b, ty), "bool"
+            if op == "!=":
+                return "(negb %s)" % self.eqb(a, b, ty), "bool"
+            if ty != "nat":
+                raise ParseError("%s: ordering comparison on type %s" % (self.fname, ty))
+            return {"<": "(Nat.ltb %s %s)" % (a, b), ">": "(Nat.ltb %s %s)" % (b, a),
+                    "<=": "(Nat.leb %s %s)" % (a, b), ">=": "(Nat.leb %s %s)" % (b, a)}[op], "bool"
+        if k == "index":
+            a, ta = self.ex(e[1], env)
+            i, ti = self.ex(e[2], env)
+            if ta != "store" or ti != "id" or e[2][0] != "path":
+                raise ParseError("%s: only store[id parameter] is supported as an index expression" % self.fname)
+            return None, ("stored", e[2][1])
+        if k == "field":
+            a, ta = self.ex(e[2], env)
+            if e[1] != "package_terms":
+                raise ParseError("%s: field .%s is not modelled" % (self.fname, e[1]))
+            if ta == "incompat":
+                return "(terms %s)" % a, MAP
+            if isinstance(ta, tuple) and ta[0] == "stored":
+                return env["#terms_of_" + ta[1]]["g"], MAP      # the arena is abstracted by the term maps of the two ids
+            raise ParseError("%s: .package_terms of type %s" % (self.fname, ta))
+        if k == "try":
+            a, ta = self.ex(e[1], env)
+            if not (isinstance(ta, tuple) and ta[0] == "opt"):
+                raise ParseError("%s: `?` on type %s" % (self.fname, ta))
+            if not (isinstance(self.rty, tuple) and self.rty[0] == "opt"):
+                raise ParseError("%s: `?` in a function that does not return an Option" % self.fname)
+            return self.push("try", 0, a), ta[1]
+        if k == "struct":
+            f = dict(e[1])
+            if sorted(f) != ["kind", "package_terms"] or len(e[1]) != 2:
+                raise ParseError("%s: unexpected fields %s" % (self.fname, [x for x, _ in e[1]]))
+            (a, ta), (b, tb) = self.ex(f["package_terms"], env), self.ex(f["kind"], env)
+            unify(ta, MAP, "package_terms"); unify(tb, "kind", "kind")
+            return "{| terms := %s; ikind := %s |}" % (a, b), "incompat"
+        if k == "call":
+            return self.call(e, env)
+        if k == "method":
+            return self.method(e, env)
+        raise ParseError("%s: %s is not supported in expression position" % (self.fname, k))
+
+    def call(self, e, env):
+        name = e[1]
+        if name == "Some":
+            if len(e[2]) != 1:
+                raise ParseError("Some with %d arguments" % len(e[2]))
+            a, ta = self.ex(e[2][0], env)
+            return "(Some %s)" % a, ("opt", ta)
+        args = [self.ex(a, env) for a in e[2]]
+        if name in ("SmallMap::One", "SmallMap::Two"):
+            n = 1 if name.endswith("One") else 2
+            if len(args) != 1 or e[2][0][0] != "array" or len(e[2][0][1]) != n:
+                raise ParseError("%s needs an array literal of %d entr%s" % (name, n, "y" if n == 1 else "ies"))
+            unify(args[0][1], MAP, name)
+            return args[0][0], MAP
+        if name.startswith("Kind::"):
+            if name[6:] not in KINDS:
+                raise ParseError("unknown kind " + name)
+            head, tys, res = KINDS[name[6:]] + ("kind",)
+        elif name in CALLS:
+            head, tys, res = CALLS[name]
+        else:
+            raise ParseError("%s: unknown function %s" % (self.fname, name))
+        if len(args) != len(tys):
+            raise ParseError("%s: %s with %d arguments" % (self.fname, name, len(args)))
+        for (_, t), want in zip(args, tys):
+            unify(t, want, "argument of " + name)
+        return "(" + " ".join([head] + [a for a, _ in args]) + ")", res
+
+    def method(self, e, env):
+        name, recv_e, arg_es = e[1], e[2], e[3]
+        recv, rt = self.ex(recv_e, env)
+        if name in ("clone", "cloned") and not arg_es:
+            return recv, rt
+        if (rt, name) in PURE:
+            head, tys, res = PURE[(rt, name)]
+            args = [self.ex(a, env) for a in arg_es]
+            if len(args) != len(tys):
+                raise ParseError("%s: .%s with %d arguments" % (self.fname, name, len(args)))
+            for (_, t), want in zip(args, tys):
+                unify(t, want, "argument of ." + name)
+            return "(" + " ".join([head, recv] + [a for a, _ in args]) + ")", res
+        if (rt, name) in PANICKING and not arg_es:
+            fn, res, rank = PANICKING[(rt, name)]
+            return self.push("bind", rank, "%s %s" % (fn, recv)), res
+        is_opt = isinstance(rt, tuple) and rt[0] == "opt"
+        if is_opt and name == "unwrap" and not arg_es:
+            origin = recv_e[1] if recv_e[0] == "method" else None
+            return self.push("bind", 0, "req %s %s" % (recv, UNWRAP_SITE.get(origin, "PGetUnwrap"))), rt[1]
+        if is_opt and name == "map_or" and len(arg_es) == 2:
+            d, td = self.pure(lambda: self.ex(arg_es[0], env), "the default of map_or")
+            pats, body, cenv = self.closure(arg_es[1], [rt[1]], env)
+            (b, tb), inner = self.collect(lambda: self.ex(body, cenv))
+            ty = unify(td, tb, "map_or")
+            if not inner:
+                return "(match %s with Some %s => %s | None => %s end)" % (recv, pats[0], b, d), ty
+            m = "match %s with Some %s => %s | None => %s end" % (recv, pats[0], self.wrap(inner, self.good(b)), self.good(d))
+            return self.push("bind", 2, m), ty
+        if rt == "incompat" and name == "get" and len(arg_es) == 1:
+            a, ta = self.ex(arg_es[0], env)
+            unify(ta, "pkg", "argument of get")
+            return "(get %s (terms %s))" % (a, recv), ("opt", "term")
+        if rt == MAP:
+            if name == "get" and len(arg_es) == 1:
+                a, ta = self.ex(arg_es[0], env)
+                unify(ta, "pkg", "argument of get")
+                return "(get %s %s)" % (a, recv), ("opt", "term")
+            if name == "len" and not arg_es:
+                return "(length %s)" % recv, "nat"
+            if name == "iter" and not arg_es:
+                return recv, ("iter", MAP[1])
+            if name == "split_one" and len(arg_es) == 1:
+                a, ta = self.ex(arg_es[0], env)
+                unify(ta, "pkg", "argument of split_one")
+                return "(option_map (fun t0_ => (t0_, remove %s %s)) (get %s %s))" % (a, recv, a, recv), ("opt", ("pair", "term", MAP))
+        if isinstance(rt, tuple) and rt[0] == "iter":
+            if name == "next" and not arg_es:
+                return "(hd_error %s)" % recv, ("opt", rt[1])
+            if name == "filter" and len(arg_es) == 1:
+                pats, body, cenv = self.closure(arg_es[0], [rt[1]], env)
+                b, tb = self.pure(lambda: self.ex(body, cenv), "a filter closure")
+                unify(tb, "bool", "filter closure")
+                return "(filter (fun %s => %s) %s)" % (pats[0], b, recv), rt
+        raise ParseError("%s: unknown method .%s on type %s" % (self.fname, name, rt))
+
+    # ---- statements that update a `mut` local: translated as a re-binding of the local
+    def mutation(self, e, env):
+        if not (e[0] == "method" and e[2][0] == "path" and e[2][1] in env and env[e[2][1]]["mut"]):
+            raise ParseError("%s: expression statement that is not a method call on a `mut` local" % self.fname)
+        var, name, arg_es = e[2][1], e[1], e[3]
+        g, ty = env[var]["g"], env[var]["ty"]
+        if ty == MAP and name == "insert" and len(arg_es) == 2:
+            (a, ta), (b, tb) = self.ex(arg_es[0], env), self.ex(arg_es[1], env)
+            unify(ta, "pkg", "insert"); unify(tb, "term", "insert")
+            return var, "(set %s %s %s)" % (a, b, g)
+        if ty == MAP and name == "merge" and len(arg_es) == 2:
+            it, ti = self.ex(arg_es[0], env)
+            unify(ti, ("iter", MAP[1]), "first argument of merge")
+            pats, body, cenv = self.closure(arg_es[1], ["term", "term"], env, renames=["a_", "b_"])
+            b, tb = self.pure(lambda: self.ex(body, cenv), "the merge closure")
+            if b != MERGE_CLOSURE:
+                raise ParseError("%s: the closure given to merge is %s but Model.Solver.merge_terms hard-wires %s"
+                                 % (self.fname, b, MERGE_CLOSURE))
+            return var, "(merge_terms O %s %s)" % (g, it)
+        raise ParseError("%s: unknown mutating method .%s on type %s" % (self.fname, name, ty))
+
+    # ---- blocks
+    def ret(self, e, env):
+        (t, ty), binds = self.collect(lambda: self.ex(e, env))
+        unify(ty, self.rty, "returned value")
+        return self.wrap(binds, self.good(t))
+
+    def tail(self, e, env):
+        if e[0] == "if":
+            if e[3] is None:
+                raise ParseError("%s: if without else as a value" % self.fname)
+            (c, tc), binds = self.collect(lambda: self.ex(e[1], env))
+            unify(tc, "bool", "if condition")
+            a = self.block(e[2][1], e[2][2], env)
+            b = self.tail(e[3], env) if e[3][0] == "if" else self.block(e[3][1], e[3][2], env)
+            return self.wrap(binds, "if %s then %s else %s" % (c, a, b))
+        if e[0] in ("match", "block", "macro"):
+            raise ParseError("%s: %s as the value of a block is not supported" % (self.fname, e[0]))
+        return self.ret(e, env)
+
+    def block(self, stmts, tail, env):
+        if not stmts:
+            if tail is None:
+                raise ParseError("%s: block without a value" % self.fname)
+            return self.tail(tail, env)
+        s, rest = stmts[0], stmts[1:]
+        k = s[0]
+        if k == "macro":
+            if s[1] != "debug_assert":
+                raise ParseError("%s: macro statement %s!" % (self.fname, s[1]))
+            return self.block(rest, tail, env)
+        if k == "return":
+            if rest or tail is not None:
+                raise ParseError("%s: code after return" % self.fname)
+            return self.ret(s[1], env)
+        if k == "let":
+            pat, rhs = s[1], s[2]
+            if rhs[0] == "match":
+                return self.let_match(pat, rhs, rest, tail, env)
+            (t, ty), binds = self.collect(lambda: self.ex(rhs, env))
+            env2, lhs = self.bind_pat(pat, ty, env)
+            return self.wrap(binds, "let %s := %s in %s" % (lhs, t, self.block(rest, tail, env2)))
+        if k == "if":
+            c_e, blk, els = s[1][1], s[1][2], s[1][3]
+            if els is not None:
+                raise ParseError("%s: if/else as a statement is not supported" % self.fname)
+            (c, tc), binds = self.collect(lambda: self.ex(c_e, env))
+            unify(tc, "bool", "if condition")
+            bst, btail = blk[1], blk[2]
+            if len(bst) == 1 and bst[0][0] == "return" and btail is None:
+                r = self.block(bst, None, env)
+                return self.wrap(binds, "if %s then %s else %s" % (c, r, self.block(rest, tail, env)))
+            if btail is None and bst and all(x[0] == "expr" for x in bst):
+                cur, var, new = env, None, None
+                for x in bst:
+                    v, new1 = self.pure(lambda: self.mutation(x[1], cur), "a conditional update")
+                    if var not in (None, v):
+                        raise ParseError("%s: a conditional block updating two variables" % self.fname)
+                    var = v
+                    new = new1 if new is None else "(let %s := %s in %s)" % (env[var]["g"], new, new1)
+                g = env[var]["g"]
+                return self.wrap(binds, "let %s := if %s then %s else %s in %s" % (g, c, new, g, self.block(rest, tail, env)))
+            raise ParseError("%s: unsupported body of an if statement" % self.fname)
+        if k == "expr":
+            (var, new), binds = self.collect(lambda: self.mutation(s[1], env))
+            return self.wrap(binds, "let %s := %s in %s" % (env[var]["g"], new, self.block(rest, tail, env)))
+        raise ParseError("%s: statement kind %s" % (self.fname, k))
+
+    def let_match(self, pat, m, rest, tail, env):
+        """`let x = match s { pat => e, pat => panic!(..) };`: the continuation goes into the arms that produce a value"""
+        (s, ts), binds = self.collect(lambda: self.ex(m[1], env))
+        if ts != "term":
+            raise ParseError("%s: match on type %s" % (self.fname, ts))
+        arms, seen = [], []
+        for (p, guard, body) in m[2]:
+            if guard is not None or p[0] != "ctor" or p[1] not in ("Term::Positive", "Term::Negative") or len(p[2]) != 1:
+                raise ParseError("%s: unsupported match arm %s" % (self.fname, (p,)))
+            seen.append(p[1])
+            sub = p[2][0]
+            aenv, b = env, "_"
+            if sub[0] == "var":
+                aenv, b = self.bind_pat(("var", sub[1], False), "vs", env)
+            elif sub[0] != "wild":
+                raise ParseError("%s: nested pattern in a match arm" % self.fname)
+            if body[0] == "macro":
+                if body[1] != "panic":
+                    raise ParseError("%s: macro %s! in a match arm" % (self.fname, body[1]))
+                rhs = "None" if self.mode == "opt" else "Panic PNoVersionsNegative"
+            else:
+                (t, ty), ab = self.collect(lambda: self.ex(body, aenv))
+                env2, lhs = self.bind_pat(pat, ty, aenv)
+                rhs = self.wrap(ab, "let %s := %s in %s" % (lhs, t, self.block(rest, tail, env2)))
+            arms.append("| %s %s => %s" % (CTORS[p[1].split("::")[-1]], b, rhs))
+        if sorted(seen) != ["Term::Negative", "Term::Positive"]:
+            raise ParseError("%s: match on a term must have exactly the arms Positive and Negative" % self.fname)
+        return self.wrap(binds, "match %s with %s end" % (s, " ".join(arms)))
+
+
+def translate_method(src, name, mode, source_order=False, suffix=""):
+    m = re.search(r"\bfn\s+%s\b" % name, src)
+    if not m:
+        raise ParseError("function not found: " + name)
+    p = RParser(tokenize(src[m.start():]))
+    params, ret = p.signature(name)
+    body = p.block()
+    for (_, t) in params:
+        if t not in RTYPES:
+            raise ParseError("%s: parameter type %s is not modelled" % (name, t))
+    if ret not in RTYPES:
+        raise ParseError("%s: return type %s is not modelled" % (name, ret))
+    em = MethEmit(name, mode, RTYPES[ret], source_order)
+    env, gparams = {}, []
+    ids = [n for (n, t) in params if RTYPES[t] == "id"]
+    for (n, t) in params:
+        ty = RTYPES[t]
+        if ty == "store":
+            env = em.declare(env, n, ty)
+            continue
+        env = em.declare(env, n, ty)
+        gparams.append("(%s : %s)" % (env[n]["g"], gtype(ty)))
+        if ty == "id" and n == ids[-1] and any(RTYPES[t2] == "store" for (_, t2) in params):
+            # the arena parameter is replaced by the term maps stored at the id parameters, placed right after them
+            for i in ids:
+                env["#terms_of_" + i] = {"g": "terms_of_" + i, "ty": MAP, "mut": False}
+                gparams.append("(terms_of_%s : %s)" % (i, gtype(MAP)))
+    text = em.block(body[1], body[2], env)
+    rty = ("option (%s)" if mode == "opt" else "res (%s)") % gtype(RTYPES[ret])
+    return params, " ".join(gparams), rty, text, env
+
+
+def incompat_methods(repo, out):
+    inc = open(os.path.join(repo, "src", "internal", "incompatibility.rs")).read()
+    inc = inc.split("// TESTS #####")[0]
+    defs = []
+    # no_versions: the only panic is the `panic!` arm, the model uses option (None = panic)
+    _, gp, rty, text, _ = translate_method(inc, "no_versions", "opt")
+    defs.append("  Definition gen_no_versions %s : %s :=\n    %s." % (gp, rty, text))
+    # is_terminal: translated in the panic monad (the source has an unwrap), then projected to bool; GenEqSolver.v proves
+    # that the monadic version is always [Good]
+    _, gp, rty, text, env = translate_method(inc, "is_terminal", "res")
+    defs.append("  Definition gen_is_terminal_res %s : %s :=\n    %s." % (gp, rty, text))
+    names = " ".join(re.findall(r"\((\w+) :", gp))
+    defs.append("  Definition gen_is_terminal %s : bool :=\n    match gen_is_terminal_res %s with Good b => b | Panic _ => false end." % (gp, names))
+    _, gp, rty, text, _ = translate_method(inc, "merge_dependents", "res")
+    defs.append("  Definition gen_merge_dependents %s : %s :=\n    %s." % (gp, rty, text))
+    # the same with the panicking operations bound exactly in the evaluation order of Rust (differs only in WHICH panic
+    # site is reported when two of them fail)
+    _, gp, rty, text, _ = translate_method(inc, "merge_dependents", "res", source_order=True)
+    defs.append("  Definition gen_merge_dependents_src %s : %s :=\n    %s." % (gp, rty, text))
+    _, gp, rty, text, _ = translate_method(inc, "prior_cause", "res")
+    defs.append("  Definition gen_prior_cause %s : %s :=\n    %s." % (gp, rty, text))
+    text = ("(* GENERATED by tools/translate.py from /repo/src/internal/incompatibility.rs — do not edit, never committed *)\n"
+            "From Coq Require Import List NArith Bool.\nFrom PG Require Import Model.VS Model.Term Model.Solver.\nImport ListNotations.\n\n"
+            "Section GenIncompatMethods.\n  Context {VS Vr : Type} (O : VSOps VS Vr).\n\n" + "\n\n".join(defs) + "\n\nEnd GenIncompatMethods.\n")
+    open(os.path.join(out, "IncompatMethods.v"), "w").write(text)
+
+
 def main():
     repo, out = sys.argv[1], sys.argv[2]
     os.makedirs(out, exist_ok=True)
@@ -699,7 +1450,8 @@ def main():
              "\n\n".join(defs) + "\n\nEnd GenVS.\n")
     open(os.path.join(out, "VSDefaults.v"), "w").write(vtext)
     incompat_ctors(repo, out)
-    print("translate: wrote RangeTables.v TermTables.v VSDefaults.v IncompatCtors.v")
+    incompat_methods(repo, out)
+    print("translate: wrote RangeTables.v TermTables.v VSDefaults.v IncompatCtors.v IncompatMethods.v")
 
 
 if __name__ == "__main__":
